@@ -263,3 +263,22 @@ Proof.
   destruct r as [v|m]; cbn [tres_eqb]; [apply Z.eqb_refl|].
   destruct m as [m| |]; cbn [tmsg_eqb]; try reflexivity. apply msg_eqb_refl.
 Qed.
+
+(** * creation times *)
+Lemma CR_mono c c' ws : CR c ws -> c <= c' -> CR c' ws.
+Proof. intros H Hc w k Hk. specialize (H w k Hk). lia. Qed.
+
+Lemma CR_set c ws w k k' : CR c ws -> nth_error ws w = Some k -> k_create k' <= c -> CR c (set_nth w k' ws).
+Proof.
+  intros H Hk Hc v kv Hv. destruct (Nat.eq_dec v w) as [->|Hne].
+  - rewrite nth_error_set_nth_same in Hv by (eapply nth_error_Some_lt, Hk). injection Hv as <-. exact Hc.
+  - rewrite nth_error_set_nth_other in Hv by exact Hne. eapply H, Hv.
+Qed.
+
+Lemma CR_set_same c ws w k k' : CR c ws -> nth_error ws w = Some k -> k_create k' = k_create k -> CR c (set_nth w k' ws).
+Proof. intros H Hk E. eapply CR_set; [exact H | exact Hk|]. rewrite E. eapply H, Hk. Qed.
+
+Lemma CR_snoc c ws k : CR c ws -> k_create k <= c -> CR c (ws ++ [k]).
+Proof.
+  intros H Hc v kv Hv. destruct (nth_error_snoc_cases _ _ _ _ Hv) as [Hv'|[_ ->]]; [eapply H, Hv' | exact Hc].
+Qed.
